@@ -6,14 +6,14 @@
  * A ring of capacity CAP is a FIFO of at most CAP indices in [0,CAP) plus the `finalized` flag (LSB of _tail). */
 #ifndef SCQ_CONTRACT_H
 #define SCQ_CONTRACT_H
-struct ring_abs { unsigned cnt; uint64_t vals[CAP]; _Bool fin; };
+struct ring_abs { unsigned char cnt; unsigned char vals[CAP]; _Bool fin; };   /* narrow fields keep the SAT encodings of the composing units small; indices are < CAP <= 8 */
 
 /* enqueue<Nonempty=false, Finalizable=F>(v): requires v < CAP, cnt < CAP (callers only enqueue an index that is outside the
  * ring, and there are CAP indices), and !fin when !F.  Finalized ring (F only): returns false, content unchanged.
  * Otherwise: returns true, content = old ++ [v]. */
 static inline _Bool abs_enqueue(struct ring_abs* a, uint64_t v, _Bool finalizable) {
   if (finalizable && a->fin) return 0;
-  a->vals[a->cnt] = v; a->cnt++;
+  a->vals[a->cnt] = (unsigned char)v; a->cnt++;
   return 1;
 }
 /* dequeue<Nonempty=false>(out): empty -> false, content and *out unchanged; else true, *out = first, content = tail(old) */
